@@ -24,7 +24,8 @@ fn eval_term(d: &tr::Dag, id: u32, leaf: &dyn Fn(u8, u32) -> f64) -> f64 {
 }
 
 fn special(rng: &mut impl Rng) -> f64 {
-    match rng.gen_range(0..12) {
+    match rng.gen_range(0..16) {
+        12 => 1.5e-162, 13 => -3e-155, 14 => 1e-160, 15 => 2.1e154,
         0 => 0.0, 1 => -0.0, 2 => f64::MIN_POSITIVE, 3 => -f64::from_bits(3), 4 => 1e300, 5 => -1e300, 6 => 1e-300,
         7 => 1.0, 8 => -1.0, _ => rng.gen_range(-1e3..1e3),
     }
